@@ -18,7 +18,7 @@ LEAN_MODULES = ["Properties.C19", "Properties.Prov.Decorate", "Properties.CoreEv
 NEEDS_DTYPES = False
 LEVEL = "proof"
 RULE = (
-    "a generated family of 14 torch modules (1-3 tensor parameters, optional parameter, tuple return, multi-axis and expression annotations using every operator and function of the grammar, named expressions, "
+    "a generated family of 17 torch modules (1-3 tensor parameters, optional parameter, tuple return, multi-axis, literal-axis (left and right of the marker, named) and expression annotations using every operator and function of the grammar, named expressions, "
     "free scope provider) x {eager, torch.jit.trace with positional and with keyword example inputs, torch.jit.script, torch.compile(backend='eager')} (thorough adds aot_eager) x "
     "{conforming input: outputs torch.equal to the undecorated twin's; non-conforming input: the dltype error class under eager, script "
     "and compile}. non-trivial = every (module, mode, input kind) triple"
@@ -99,6 +99,21 @@ class M14(torch.nn.Module):
     def forward(self, x: Annotated[torch.Tensor, dltype.FloatTensor["b c"]], y: Annotated[torch.Tensor, dltype.FloatTensor["b d=c+1"]]) -> Annotated[torch.Tensor, dltype.FloatTensor["b d"]]:
         return y * 2
 
+class M15(torch.nn.Module):
+    DEC
+    def forward(self, x: Annotated[torch.Tensor, dltype.FloatTensor["b c 3"]]) -> Annotated[torch.Tensor, dltype.FloatTensor["b 3 c"]]:
+        return x.transpose(1, 2)
+
+class M16(torch.nn.Module):
+    DEC
+    def forward(self, x: Annotated[torch.Tensor, dltype.FloatTensor["*batch n 3"]], y: Annotated[torch.Tensor, dltype.FloatTensor["2 ... n"]]) -> Annotated[torch.Tensor, dltype.FloatTensor["*batch n=4"]]:
+        return x.sum(-1) + y[0, 0]
+
+class M17(torch.nn.Module):
+    DEC
+    def forward(self, x: Annotated[torch.Tensor, dltype.FloatTensor["rgb=3 h w"]]) -> Annotated[torch.Tensor, dltype.FloatTensor["1 rgb h*w"]]:
+        return x.reshape(1, 3, -1)
+
 class M8(torch.nn.Module):
     DEC
     def forward(self, x: Annotated[torch.Tensor, dltype.FloatTensor["b c"]], m: Optional[Annotated[torch.Tensor, dltype.FloatTensor["b c"]]] = None) -> Annotated[torch.Tensor, dltype.FloatTensor["b c"]]:
@@ -133,6 +148,9 @@ def family():
         "M12": ((r(2, 4), r(2, 2)), (r(2, 4), r(2, 3))),
         "M13": ((r(2, 3),), (r(2, 3, 1),)),
         "M14": ((r(2, 3), r(2, 4)), (r(2, 3), r(2, 5))),
+        "M15": ((r(2, 4, 3),), (r(2, 4, 2),)),
+        "M16": ((r(5, 2, 4, 3), r(2, 6, 4)), (r(5, 2, 4, 3), r(3, 6, 4))),
+        "M17": ((r(3, 2, 5),), (r(4, 2, 5),)),
     }
     return dec_ns, und_ns, inputs
 
